@@ -22,7 +22,8 @@ REQUIRED_CLAUSES = ['under-lazy-translation', 'documented-keyword-call', 'float-
 ASSUMPTIONS = ['exact answer computed with fractions.Fraction from the generator components',
                'float results are compared within 4 ulp; integer results exactly, except where the '
                'known finding K10 (float arithmetic before ceil) applies by its input predicate']
-SHARDS = {'quick': 1, 'thorough': 16}
+INTERPRETER_FLAGS = [[], ['-O'], [], ['-bb']]
+SHARDS = {'quick': 4, 'thorough': 16}
 
 IEC_PREFIXES = ['K', 'Ki', 'M', 'Mi', 'G', 'Gi', 'T', 'Ti', 'P', 'Pi', 'E', 'Ei',
                 'Z', 'Zi', 'Y', 'Yi', 'R', 'Ri', 'Q', 'Qi']
